@@ -12,7 +12,7 @@ import (
 	"golang.org/x/tools/go/ssa"
 )
 
-const dnfCap = 96
+const dnfCap = 192
 
 // ResDesc describes one result of a function on one return case.
 type ResDesc struct {
